@@ -99,12 +99,14 @@ def tab_reader_symbols(repo, tier="quick"):
     # guard strings / key uses: every membership test `X in '<literal>'` whose true branch indexes the table with X
     n_guards = 0
     for sub in ast.walk(fi.node):
-        if isinstance(sub, ast.If):
+        # the if statement and the conditional expression `table[x] if x in '<literal>' else default`
+        if isinstance(sub, (ast.If, ast.IfExp)):
+            true_arm = sub.body if isinstance(sub, ast.If) else [sub.body]
             for cmp_ in ast.walk(sub.test):
                 if isinstance(cmp_, ast.Compare) and len(cmp_.ops) == 1 and isinstance(cmp_.ops[0], ast.In) and \
                         isinstance(cmp_.comparators[0], ast.Constant) and isinstance(cmp_.comparators[0].value, str):
                     key_src = ast.unparse(cmp_.left)
-                    uses = [s for b in sub.body for s in ast.walk(b)
+                    uses = [s for b in true_arm for s in ast.walk(b)
                             if isinstance(s, ast.Subscript) and isinstance(s.value, ast.Name) and s.value.id == name
                             and ast.unparse(s.slice) == key_src]
                     if uses:
